@@ -20,7 +20,7 @@ import (
 
 var isolated = map[string]bool{}
 
-const caseTimeout = 1500 * time.Millisecond
+const caseTimeout = 3000 * time.Millisecond
 
 func workerMain() {
 	// bound the address space so that an allocation storm kills this worker instead of the machine
@@ -153,7 +153,7 @@ func runIsolatedOnce(line string) string {
 	var s string
 	select {
 	case s = <-ch:
-	case <-time.After(10 * time.Second):
+	case <-time.After(25 * time.Second):
 		s = ""
 	}
 	cmd.Process.Kill()
